@@ -187,6 +187,22 @@ Definition handle (c : cfg) (now : N) (st : ust) (p : pkt) : ust * outcome :=
   | Some (frame, sc0) => apply_track st frame sc0 (track now p (u_srcs st) (u_active st))
   end.
 
+(* E1.31 framing layer as decoded by E131Inflator / E131InflatorRev2::DecodeHeader: the options byte
+   carries preview (PREVIEW_DATA_MASK) and stream-terminated (STREAM_TERMINATED_MASK); every other bit
+   is ignored; the rev-2 framing header has no options byte.  Framing vectors other than
+   VECTOR_E131_DATA do not reach the DMP inflator. *)
+Record wire := mkW { w_cid : N; w_rev2 : bool; w_fvec : N; w_prio : N; w_seq : N; w_opts : N;
+                     w_univ : N; w_dvec : N; w_dmph : N; w_pdu : list N }.
+
+Definition pkt_of_wire (w : wire) : pkt :=
+  mkPkt (w_dvec w) (w_cid w) (w_prio w) (w_seq w) (w_univ w)
+        (if w_rev2 w then false else negb (N.land (w_opts w) E131_PREVIEW_DATA_MASK =? 0))
+        (if w_rev2 w then false else negb (N.land (w_opts w) E131_STREAM_TERMINATED_MASK =? 0))
+        (w_rev2 w) (w_dmph w) (w_pdu w).
+
+Definition handle_wire (c : cfg) (now : N) (st : ust) (w : wire) : ust * outcome :=
+  if negb (w_fvec w =? VECTOR_E131_DATA) then (st, OIgnore) else handle c now st (pkt_of_wire w).
+
 (* ------------------------------------------------------------------ Art-Net *)
 Record asrc := mkA { a_addr : N; a_ts : N; a_buf : list N }.   (* address 0 = wildcard = empty slot *)
 Record aport := mkP { ap_srcs : list asrc; ap_merging : bool; ap_buf : list N }.
